@@ -18,7 +18,7 @@ if args.props:
     ps = set(args.props.split(','))
     mutants = [m for m in mutants if m['prop'] in ps]
 
-env = dict(os.environ, GOFLAGS='-mod=mod', GOPROXY='off', GOSUMDB='off', GOTOOLCHAIN='local')
+ENV = dict(os.environ, GOFLAGS='-mod=mod', GOPROXY='off', GOSUMDB='off', GOTOOLCHAIN='local')
 
 def make_scratch():
     d = tempfile.mkdtemp(prefix='gbv-selftest-')
@@ -27,6 +27,9 @@ def make_scratch():
 
 def run_one(scratch, m):
     repo = scratch + '/repo'
+    # a build cache of its own, removed with the scratch copy: every mutant build adds some 0.3 GB of objects, which
+    # must not pile up in the user's cache
+    env = dict(ENV, GOCACHE=scratch + '/gocache')
     path = os.path.join(repo, m['file'])
     src = open(path).read()
     if m['old'] not in src:
